@@ -51,6 +51,9 @@ pub mod ffi {
     ) {
         let idx = idx.try_into().ok();
 
+        #[cfg(roto_verif)]
+        crate::verif::sched::point("acquire", this.vid(), 0);
+
         // The lock is taken once and held until the element has been cloned:
         // the pointer is only valid as long as no other thread pushes to
         // this list.
@@ -249,6 +252,9 @@ pub mod boundary {
 
         /// Get the element at index `idx`
         pub fn get(&self, idx: usize) -> Option<T> {
+            #[cfg(roto_verif)]
+            crate::verif::sched::point("acquire", self.inner.vid(), 0);
+
             // The lock must be held until the element has been cloned: the
             // pointer is only valid as long as no other thread pushes to
             // this list.
